@@ -122,6 +122,14 @@ def spec(tier, seed):
     try:
         bifn.total_on_unicode(b, "vk_c08", 1, "quick")
         bifn.total_on_unicode(b, "vk_c08", 2, "thorough")
+        # the argument rule of the checker against the run-time body (the statement's "argument validation of built-ins at lint time;
+        # run-time code then uses unchecked accessors")
+        # (decided for the built-ins whose body does not touch a string; for the others CBMC runs out of memory at 8 GB even on empty
+        # texts - the argument list of symbolic length merges text and numeric arguments - thorough, non-core)
+        for name in ("space", "chr"):
+            bifn.lint_vs_run(b, "vk_c08", name, "quick")
+        for name in ("left", "right", "mid_fn", "instr", "ltrim", "rtrim", "ucase", "lcase"):
+            bifn.lint_vs_run(b, "vk_c08", name, "thorough", core=False)
     except slicer.SliceError as e:
         notes.append("built-in bodies could not be sliced from the current tree (%s): the LEFT$/RIGHT$/... instances are missing from this run" % e)
 
